@@ -1,5 +1,6 @@
 """C11 — confidence_region_check_dominates: correspondence with the model, soundness against the
-exact specification (per-vertex feasibility by Fourier-Motzkin), completeness for 2x2 cones."""
+exact specification (per-vertex feasibility by Fourier-Motzkin), completeness for 2x2 cones (proved for the
+exact model; the implementation is compared with the specification with a margin)."""
 import numpy as np
 from fractions import Fraction
 import common, gen, impl
@@ -8,7 +9,7 @@ ALLOWED_AXIOMS = set()
 TRUSTED_BASE = [
     "Coq 8.16.1 kernel (coqc); no native_compute; every C11 theorem: Closed under the global context",
     "hand-written model Pessimistic.v of check_dominates / is_pt_in_extended_polytope / line_seg_pt_intersect_at_dim (zero denominators -> no intersection), tied to vopy/utils/utils.py and vopy/confidence_region.py by exact correspondence on dyadic rectangles and integer cones",
-    "soundness proved for every cone and dimension (PessProofs.check_dominates_sound); completeness for 2x2 cones is NOT proved: it is tested against the exact Fourier-Motzkin specification with a margin (labelled a test)",
+    "soundness proved for every cone and dimension (PessProofs.check_dominates_sound); completeness for invertible 2x2 cones proved in exact arithmetic (PessComplete.check_dominates_complete_2x2, any opening angle, degenerate boxes); the floating-point implementation is compared with the exact model and with the exact Fourier-Motzkin specification (completeness with a margin of 2^-20 x box extent + 2^-44 x coordinate magnitude, which is what 'non-negligible margin' means here), including configurations translated by up to 2^25",
     "translator: compute_pessimistic_set of VOGP / eps-PAL / VOGP_AD regenerated (Gen_algos.v)",
     "extraction with ExtrOcamlBasic only + driver; OCaml 4.13.1",
 ]
@@ -48,7 +49,15 @@ def gen_cases(ctx):
                 u1 = [a + b for a, b in zip(l1, w)]
         else:
             l2, u2 = rb()
-        cases.append({"cone": cn, "W": W, "l1": l1, "u1": u1, "l2": l2, "u2": u2, "rel": kind})
+        off = None
+        if rng.random() < 0.35:
+            # both rectangles translated by one (large) vector: the cone order cannot see it, and neither may the
+            # edge-intersection search (coordinates stay exactly representable: |offset| <= 2^25, grid 2^-8)
+            k = rng.choice([10, 14, 17, 20, 22, 24])
+            off = [Fraction(rng.choice([-3, -1, 1, 2, 3]) * 2 ** k) for _ in range(m)]
+            l1 = [a + o for a, o in zip(l1, off)]; u1 = [a + o for a, o in zip(u1, off)]
+            l2 = [a + o for a, o in zip(l2, off)]; u2 = [a + o for a, o in zip(u2, off)]
+        cases.append({"cone": cn, "W": W, "l1": l1, "u1": u1, "l2": l2, "u2": u2, "rel": kind, "offset": "0" if off is None else f"2^{k}"})
     return cases
 
 
@@ -64,8 +73,11 @@ def evaluate(ctx, cases):
             r = "EXC:" + type(e).__name__
         impl_out.append(r)
         a = f"{common.enc(c['W'])} {common.enc(c['l1'])} {common.enc(c['u1'])} {common.enc(c['l2'])} {common.enc(c['u2'])}"
-        scale = max([abs(x) for x in c["u1"] + c["u2"] + c["l1"] + c["l2"]] + [Fraction(1, 64)])
-        lines += ["check_dominates " + a, f"pess_dec {a} 0", f"pess_dec {a} {common.hexq(tau * scale)}"]
+        # margin relative to the SIZE of the configuration (extent of the two boxes), not to its distance from the origin
+        allc = list(zip(c["l1"], c["u1"], c["l2"], c["u2"]))
+        scale = max([max(t) - min(t) for t in allc] + [Fraction(1, 64)])
+        mag = max(abs(x) for x in c["u1"] + c["u2"] + c["l1"] + c["l2"])
+        lines += ["check_dominates " + a, f"pess_dec {a} 0", f"pess_dec {a} {common.hexq(tau * scale + mag / 2 ** 44)}"]
     out = ctx.model(lines)
     viol, mism = [], []
     stats = {"true": 0, "false": 0, "complete_2x2_checked": 0, "spec_true": 0}
